@@ -141,8 +141,10 @@ def now_builtin(ex, *a, **kw):
     return App('now', [n[0]])
 
 
-B.EXT_HOOKS['datetime.timedelta'] = Builtin('timedelta', timedelta_builtin)
-B.EXT_HOOKS['datetime.datetime.now'] = Builtin('datetime.now', now_builtin)
+from pyvc import timeval as _tv
+B.EXT_HOOKS['datetime.timedelta'] = Builtin('timedelta', _tv.timedelta)
+B.EXT_HOOKS['datetime.datetime.now'] = Builtin('datetime.now', _tv.now)
+B.EXT_HOOKS['datetime.datetime.strptime'] = Builtin('datetime.strptime', _tv.strptime)
 
 
 def decoder_contracts():
